@@ -1250,7 +1250,7 @@ func TestVerifC01W(t *testing.T) {
 	vc := kit.InstallVClock()
 	defer kit.UninstallVClock()
 
-	kit.Run(t, "C01", "wb-random", kit.N(800, 18000), func(c *kit.Case) {
+	kit.Run(t, "C01", "wb-random", kit.N(800, 15000), func(c *kit.Case) {
 		for i := 0; i < 10 && !c.Violated(); i++ {
 			vfRunRandom(c, vc)
 			c.Evals(1)
@@ -1289,7 +1289,7 @@ func TestVerifC01W(t *testing.T) {
 
 	kit.Run(t, "C01", "wb-weight-floor", kit.N(300, 4000), func(c *kit.Case) { vfRunWeightFloor(c, vc) })
 
-	kit.Run(t, "C01", "wb-concurrent", kit.N(600, 9000), func(c *kit.Case) { vfRunConcurrent(c, vc) })
+	kit.Run(t, "C01", "wb-concurrent", kit.N(600, 6000), func(c *kit.Case) { vfRunConcurrent(c, vc) })
 
 	kit.End()
 }
